@@ -91,7 +91,7 @@ TEXT = {
   level_note='Trusts the harness CRC recomputation and independent parser; allocation is measured with runtime/metrics.'),
  'C18': dict(
   design_ref='DESIGN.md §4 C18',
-  technique='fault enumeration guided by the read set: on 11 valid base images (fat12/16/32, ext4 plain / metadata_csum / made by mke2fs / made by mke2fs with a hash-indexed directory, a sparse file and xattrs, iso9660 plain / Rock Ridge, squashfs uncompressed / gzip) every aligned 1/2/4/8-byte word that a clean open + walk + read-everything (+ GetXattr on ext4) consumes (minus file payload) is replaced by each of 13 boundary values, the values of the neighbouring words and, for 2/4-byte words, six mid-range values, plus FAT chain self-links, cycles, out-of-range, free and reserved links in either FAT copy, each with the volume opened with its real size and with size 0; oracle = no panic, watchdog, no endless (0, nil) read, heap held at one moment <= 32 x image + 32 MiB',
+  technique='fault enumeration guided by the read set: on 11 valid base images (fat12/16/32, ext4 plain / metadata_csum / made by mke2fs / made by mke2fs with a hash-indexed directory, a sparse file and xattrs, iso9660 plain / Rock Ridge, squashfs uncompressed / gzip) every aligned 1/2/4/8-byte word that a clean open + walk + read-everything (+ GetXattr on ext4) consumes (minus file payload) is replaced by each of 13 boundary values, the values of the neighbouring words and, for 2/4-byte words, six mid-range values, for 4-byte words single high bits, and - thorough tier - for every small field (16..1024) every smaller value, plus FAT chain self-links, cycles, out-of-range, free and reserved links in either FAT copy, each with the volume opened with its real size and with size 0; oracle = no panic, watchdog, no endless (0, nil) read, heap held at one moment <= 32 x image + 32 MiB',
   level_text='Finite fault family enumerated per base image (quick: every 6th word with a seeded phase; thorough: all), in memory-capped child processes with a per-probe journal so that a dying child still yields a replay.',
   level_note='Single-word faults without checksum repair; the bases are small fixed trees (nested directories, fragmented files, an empty file, a long name, a symlink), not generated ones. Trusts the instrumented device read log to name what the reader consumes.'),
  'C10': dict(
